@@ -16,8 +16,9 @@ const robPkg = "amd/timing/rob"
 func init() { register("C15", runC15) }
 
 func runC15(c *core.Ctx) core.Meta {
-	c.Load(robPkg)
+	c.Load(robPkg, saPkg, timingPlatformPkgs[0], timingPlatformPkgs[1])
 	c.BuildSSA()
+	checkROBWiring(c)
 	p := NewPkgInfo(c, robPkg)
 	const listField = "ReorderBuffer.transactions"
 	const tableField = "ReorderBuffer.toBottomReqIDToTransactionTable"
